@@ -335,6 +335,12 @@ func runMinterCase(ta *TestApp, seed uint64, idx int, rep *Report, profile strin
 	}
 	st := mintertypes.MinterState{SequenceId: c.minters[0].seq, AmountMinted: sdk.ZeroInt(), RemainderToMint: sdk.ZeroDec(),
 		RemainderFromPreviousMinter: sdk.ZeroDec(), LastMintBlockTime: t0}
+	// a share of the cases mints a denomination nobody holds yet (total supply exactly zero until the first coin is minted)
+	freshDenom := rng.Chance(18)
+	if freshDenom {
+		c.denom = "ufresh"
+		rep.Count("mint_denom.zero_initial_supply")
+	}
 	// final time: somewhere in the schedule, often beyond several periods
 	var horizon time.Duration
 	lastEnd := c.start
@@ -393,6 +399,19 @@ func runMinterCase(ta *TestApp, seed uint64, idx int, rep *Report, profile strin
 			style = 2
 		}
 		times := genPartition(rng, c, t0, T, style)
+		if freshDenom && !k10 {
+			// blocks right at and after the start of the schedule, where the amount due is still below one unit
+			var early []time.Time
+			for _, e := range []time.Time{c.start, c.start.Add(1), c.start.Add(time.Millisecond)} {
+				if e.After(t0) && len(times) > 0 && e.Before(times[0]) && (len(early) == 0 || e.After(early[len(early)-1])) {
+					early = append(early, e)
+				}
+			}
+			if len(early) == 0 && len(times) > 0 && t0.Add(1).Before(times[0]) {
+				early = append(early, t0.Add(1))
+			}
+			times = append(early, times...)
+		}
 		obs, supply0, hist := runMinterBlocks(ta, params, st, times, c.denom)
 		rep.Count(fmt.Sprintf("partition.style%d", style))
 		var blocks []string
@@ -524,8 +543,16 @@ func checkInflation(rep *Report, c minterCfg, cid, step int, infl, supply *big.I
 	if !ok || g.kind == 0 {
 		return
 	}
+	if supply.Sign() <= 0 {
+		// "emission rate divided by the current supply" is undefined for an empty supply (the module reports 0)
+		rep.Count("inflation.supply_zero_rate_undefined")
+		return
+	}
 	if g.end != nil && t2.After(*g.end) {
 		return
+	}
+	if t1.Before(start) {
+		return // the interval must lie inside the period: before its start the reported rate is zero by definition
 	}
 	dt := t2.Sub(t1)
 	if dt <= 0 || dt > 30*24*time.Hour {
